@@ -92,13 +92,13 @@ fn via(role: Role, name: &'static str, commit: bool, steps: Vec<S>) -> Via {
 
 /// channels of one link: real client / server channels and the raw senders
 pub struct Chans {
-    c: Option<AgentChannel>,
-    s: Option<AgentChannel>,
-    raw_to_c: AgentChannel,
-    raw_to_s: AgentChannel,
+    pub c: Option<AgentChannel>,
+    pub s: Option<AgentChannel>,
+    pub raw_to_c: AgentChannel,
+    pub raw_to_s: AgentChannel,
 }
 
-async fn link(id: u16) -> (Chans, RunningPlexer, RunningPlexer) {
+pub async fn link(id: u16) -> (Chans, RunningPlexer, RunningPlexer) {
     let (sa, sb) = tokio::net::UnixStream::pair().unwrap_or_else(|e| die(&format!("socketpair: {e}")));
     let mut pa = Plexer::new(Bearer::Unix(sa));
     let mut pb = Plexer::new(Bearer::Unix(sb));
@@ -278,6 +278,113 @@ impl Proto for Hs {
         }
     }
 }
+
+// ======================================================= handshake (n2c)
+pub struct Hc {
+    c: handshake::N2CClient,
+    s: handshake::N2CServer,
+    rc: AgentChannel,
+    rs: AgentChannel,
+    s_blind: bool,
+}
+impl Hc {
+    fn table() -> handshake::n2c::VersionTable {
+        handshake::n2c::VersionTable::v10_and_above(MAGIC)
+    }
+    fn vd() -> handshake::n2c::VersionData {
+        handshake::n2c::VersionData::new(MAGIC, Some(false))
+    }
+    fn msg(m: &str) -> handshake::Message<handshake::n2c::VersionData> {
+        match m {
+            "Propose" => handshake::Message::Propose(Self::table()),
+            "Accept" => handshake::Message::Accept(32784, Self::vd()),
+            "Refuse" => handshake::Message::Refuse(handshake::RefuseReason::Refused(32784, "no".into())),
+            "QueryReply" => handshake::Message::QueryReply(Self::table()),
+            _ => die(&format!("handshake_n2c: no message {m}")),
+        }
+    }
+}
+impl Proto for Hc {
+    const NAME: &'static str = "handshake_n2c";
+    const ID: u16 = 0;
+    fn new(mut ch: Chans) -> Self {
+        Hc {
+            c: handshake::Client::new(ch.c.take().unwrap()),
+            s: handshake::Server::new(ch.s.take().unwrap()),
+            rc: ch.raw_to_c,
+            rs: ch.raw_to_s,
+            s_blind: false,
+        }
+    }
+    fn state(&self, role: Role) -> String {
+        match role {
+            Client => dbg_state(self.c.state()),
+            Server if self.s_blind => String::new(),
+            Server => dbg_state(self.s.state()),
+        }
+    }
+    fn raw(&mut self, to: Role) -> &mut AgentChannel {
+        if to == Client { &mut self.rc } else { &mut self.rs }
+    }
+    fn vias() -> Vec<Via> {
+        vec![
+            via(Client, "send_message", false, vec![S::Send(HS_MSGS)]),
+            via(Client, "recv_message", false, vec![S::Recv(HS_MSGS)]),
+            via(Client, "send_propose", true, vec![S::Send(&["Propose"])]),
+            via(Client, "recv_while_confirm", true, vec![S::Recv(&["Accept", "Refuse", "QueryReply"])]),
+            via(Client, "handshake", true, vec![S::Send(&["Propose"]), S::Recv(&["Accept", "Refuse", "QueryReply"])]),
+            via(Server, "send_message", false, vec![S::Send(HS_MSGS)]),
+            via(Server, "recv_message", false, vec![S::Recv(HS_MSGS)]),
+            via(Server, "receive_proposed_versions", true, vec![S::Recv(&["Propose"])]),
+            via(Server, "accept_version", true, vec![S::Send(&["Accept"])]),
+            via(Server, "refuse", true, vec![S::Send(&["Refuse"])]),
+            via(Server, "handshake", true, vec![S::Recv(&["Propose"]), S::Send(&["Accept"])]),
+        ]
+    }
+    fn wire(&self, msg: &str) -> Vec<u8> {
+        enc(&Self::msg(msg))
+    }
+    async fn drive(&mut self, msg: &str) -> Res {
+        match msg {
+            "Propose" => {
+                r(self.c.send_propose(Self::table()).await)?;
+                r(self.s.receive_proposed_versions().await)
+            }
+            "Accept" => {
+                r(self.s.accept_version(32784, Self::vd()).await)?;
+                r(self.c.recv_while_confirm().await)
+            }
+            "Refuse" => {
+                r(self.s.refuse(handshake::RefuseReason::Refused(32784, "no".into())).await)?;
+                r(self.c.recv_while_confirm().await)
+            }
+            "QueryReply" => {
+                // the server agent has no method that sends QueryReply
+                self.s_blind = true;
+                self.deliver(Client, "QueryReply").await;
+                r(self.c.recv_while_confirm().await)
+            }
+            _ => Err(format!("nodrive {msg}")),
+        }
+    }
+    async fn call(&mut self, role: Role, via: &str, sel: &[String]) -> Res {
+        match (role, via) {
+            (Client, "send_message") => r(self.c.send_message(&Self::msg(&sel[0])).await),
+            (Client, "recv_message") => r(self.c.recv_message().await),
+            (Client, "send_propose") => r(self.c.send_propose(Self::table()).await),
+            (Client, "recv_while_confirm") => r(self.c.recv_while_confirm().await),
+            (Client, "handshake") => r(self.c.handshake(Self::table()).await),
+            (Server, "send_message") => r(self.s.send_message(&Self::msg(&sel[0])).await),
+            (Server, "recv_message") => r(self.s.recv_message().await),
+            (Server, "receive_proposed_versions") => r(self.s.receive_proposed_versions().await),
+            (Server, "accept_version") => r(self.s.accept_version(32784, Self::vd()).await),
+            (Server, "refuse") => r(self.s.refuse(handshake::RefuseReason::Refused(32784, "no".into())).await),
+            (Server, "handshake") => r(self.s.handshake(Self::table()).await),
+            _ => die(&format!("handshake_n2c: no via {via}")),
+        }
+    }
+}
+
 
 // =============================================================== chainsync
 const CS_MSGS: &[&str] = &[
@@ -1406,6 +1513,7 @@ pub fn trace(args: &Args) {
     rt.block_on(async {
         let want = |n: &str| only.as_deref().map(|o| o == n).unwrap_or(true);
         if want(Hs::NAME) { run_proto::<Hs>(&plan, &mut out, reps).await; }
+        if want(Hc::NAME) { run_proto::<Hc>(&plan, &mut out, reps).await; }
         if want(Cs::NAME) { run_proto::<Cs>(&plan, &mut out, reps).await; }
         if want(Bf::NAME) { run_proto::<Bf>(&plan, &mut out, reps).await; }
         if want(Tx::NAME) { run_proto::<Tx>(&plan, &mut out, reps).await; }
